@@ -257,6 +257,8 @@ class SrcGen:
         if self.has("widths") and r.random() < 0.3:
             w = "float32"
         t = {"k": "float", "w": w}
+        if w == "float64" and r.random() < 0.25:
+            t["nofmt_candidate"] = True
         if self.has("bounds") and r.random() < 0.5:
             a = Decimal(r.randint(-40, 40)) / Decimal(r.choice([1, 2, 4, 10]))
             b = a + Decimal(r.randint(0, 40)) / Decimal(r.choice([1, 2, 4]))
@@ -554,7 +556,16 @@ def project(schema, fmt):
             for b in ("ge", "gt", "le", "lt"):
                 if b in t:
                     t[b] = max(lo, min(hi, t[b]))
+            if fmt == "cue" and "ge" in t and t.get("le") == t["ge"]:
+                # CUE simplifies `>=n & <=n` to the constant n, which cog then treats as a constant field
+                if t["le"] < hi:
+                    t["le"] += 1
+                else:
+                    t["ge"] -= 1
         elif k == "float":
+            if fmt == "openapi" and t["w"] == "float64" and t.get("nofmt_candidate"):
+                t["nofmt"] = True       # `type: number` without format is a double-precision number in OpenAPI
+            t.pop("nofmt_candidate", None)
             if fmt == "jsonschema":
                 t["w"] = "float64"
             elif fmt == "cue" and t["w"] == "float32" and any(b in t for b in ("ge", "gt", "le", "lt")):
@@ -595,7 +606,7 @@ def _js_type(t, refprefix, openapi=False, closed=False):
         return o
     if k == "float":
         o = {"type": "number"}
-        if openapi:
+        if openapi and not t.get("nofmt"):
             o["format"] = "float" if t["w"] == "float32" else "double"
         _bounds(o, t, openapi, lambda v: v)
         return o
@@ -843,11 +854,19 @@ class DocGen:
         return r.randint(a, b)
 
     def v_float(self, t):
+        x = self._v_float(t)
+        if self.fmt == "cue" and x == x.to_integral_value():
+            return Decimal(str(int(x)) + ".0")     # in CUE an integer literal is not a float
+        return x
+
+    def _v_float(self, t):
         r = self.rng
         digits = 4 if t["w"] == "float32" else 6
         lo = t.get("ge", t.get("gt"))
         hi = t.get("le", t.get("lt"))
         if lo is None and hi is None:
+            if t["w"] == "float64" and r.random() < 0.3:
+                digits = 12
             base = Decimal(r.randint(-10 ** digits, 10 ** digits)) / (Decimal(10) ** r.randint(0, digits - 1))
             return _dnorm(base)
         if lo is None:
@@ -1262,6 +1281,18 @@ class DocGen:
             else:
                 nv[k] = x
         return self.put(doc, path, nv)
+
+    def intfrac_variant(self, doc, defname=None):
+        """doc with one integer written with a zero fraction (7 -> 7.0): the same number in JSON"""
+        root_t = self.defs[defname or self.schema["root"]]
+        cands = []
+        for path, t, v, _ in self.positions(root_t, doc):
+            if self.resolve(t)["k"] == "int" and isinstance(v, int) and not isinstance(v, bool) and abs(v) < 10 ** 12:
+                cands.append((path, v))
+        if not cands:
+            return None
+        path, v = self.rng.choice(cands)
+        return self.put(doc, path, Decimal(str(v) + ".0"))
 
     def time_variant(self, doc, defname=None):
         """doc with one UTC timestamp written with the other zone designator (Z <-> +00:00)"""
